@@ -117,7 +117,7 @@ func c19Exec(r *vf.Run, cfg c19Cfg, c *vf.Chooser) (keys, whats []string) {
 	}
 	trace := &sasl.Trace{}
 	sess.NewAuth = saslFactory(conn, c19User, c19Pass, trace)
-	sess.Script = stdScriptB(c, 8, func() { conn.BreakWrites = true })
+	sess.Script = stdScriptB(c, 9, func() { conn.BreakWrites = true }, func() { conn.WriteStallAt = conn.Written })
 	dials := 0
 	var prev *refsmtp.Conn
 	prevLive := false // once the first dial has succeeded the earlier connection answers by choice
@@ -336,7 +336,7 @@ func init() {
 	vf.Register(&vf.Check{
 		ID: "C19", Title: "no connection outlives a failed operation",
 		Run: func(r *vf.Run) {
-			r.SetRule("reply ∈ {ok, 4yz, 5yz, drop, garbage, ok-but-the-next-client-write-fails, 421 followed by a disconnect, ok-but-late (the reply reaches the socket after the client's read timed out; outside TLS)} at every step of dial and dial-and-send (greeting, EHLO, HELO fallback, STARTTLS, each AUTH step, NOOP, MAIL, RCPT, DATA, end-of-data, RSET, QUIT) up to the deviation bound × TLS policy {mandatory, opportunistic, none, implicit} × handshake {ok, wrong-name certificate, garbage, drop} × STARTTLS advertised or not × auth {none, PLAIN, LOGIN, CRAM-MD5, SCRAM-SHA-256, XOAUTH2, auto-discover, mechanism not offered, HELO name containing CR, SCRAM-SHA-256-PLUS}; plus a transport on which Set*Deadline fails from the 1st / 2nd / 3rd call on; plus the same calls with a caller context that is cancelled while the dial is in flight (the dialer still hands out a live connection), and through the connection-per-caller variants (DialToSMTPClientWithContext alone, and followed by SendWithSMTPClient + CloseWithSMTPClient), and on a Client that is already connected (whatever it then does with the earlier connection is answered {ok, 5yz, drop}); oracle: Close() was called on the fake connection by the time the failing call returns; distinct by (configuration, script)")
+			r.SetRule("reply ∈ {ok, 4yz, 5yz, drop, garbage, ok-but-the-next-client-write-fails, 421 followed by a disconnect, ok-but-late (the reply reaches the socket after the client's read timed out; outside TLS), ok-then-the-peer-stops-reading (the client's next write runs into its deadline; outside TLS)} at every step of dial and dial-and-send (greeting, EHLO, HELO fallback, STARTTLS, each AUTH step, NOOP, MAIL, RCPT, DATA, end-of-data, RSET, QUIT) up to the deviation bound × TLS policy {mandatory, opportunistic, none, implicit} × handshake {ok, wrong-name certificate, garbage, drop} × STARTTLS advertised or not × auth {none, PLAIN, LOGIN, CRAM-MD5, SCRAM-SHA-256, XOAUTH2, auto-discover, mechanism not offered, HELO name containing CR, SCRAM-SHA-256-PLUS}; plus a transport on which Set*Deadline fails from the 1st / 2nd / 3rd call on; plus the same calls with a caller context that is cancelled while the dial is in flight (the dialer still hands out a live connection), and through the connection-per-caller variants (DialToSMTPClientWithContext alone, and followed by SendWithSMTPClient + CloseWithSMTPClient), and on a Client that is already connected (whatever it then does with the earlier connection is answered {ok, 5yz, drop}); oracle: Close() was called on the fake connection by the time the failing call returns; distinct by (configuration, script)")
 			r.Assume("'closed' means net.Conn.Close was called on the connection the dial function handed out (or on a TLS wrapper around it)")
 			bound := 2
 			if r.Thorough {
